@@ -85,6 +85,7 @@ end Clause
 
 set_option linter.unusedSimpArgs false
 
+set_option maxRecDepth 4000 in
 /-- normalise a goal / hypotheses about the state after a sequence of primitives into statements about the lookups of the
 initial state -/
 macro "reg_norm" : tactic => `(tactic| simp only [
@@ -99,6 +100,9 @@ macro "reg_norm" : tactic => `(tactic| simp only [
   mem_typedDiscardAll, mem_setNode_typed, mem_setLink_typed, AL.get?_set, AL.get?_del, OSet.mem_add, OSet.mem_discard,
   ite_some_eq_some, ite_none_eq_some, ite_eq_some_none, or_and_right, exists_or, and_assoc, exists_and_left, exists_eq_left',
   Option.some.injEq, reduceCtorEq, false_and, and_false, or_false, false_or, true_and, and_true, exists_false, not_false_eq_true, not_true_eq_false,
-  Prod.mk.injEq, ne_eq] at *)
+  Prod.mk.injEq, ne_eq, or_imp, forall_and, and_imp, forall_eq, forall_eq', forall_apply_eq_imp_iff,
+  mem_nodeSets, mem_allLinkSets, mem_curveSets, fam_nodeSet, fam_curveSet,
+  ltype_pipe, isPump_pipe, isValveKind_pipe, ltype_headPump, isPump_headPump, isValveKind_headPump, ltype_powerPump, isPump_powerPump, isValveKind_powerPump, ltype_prv, isPump_prv, isValveKind_prv, ltype_psv, isPump_psv, isValveKind_psv, ltype_pbv, isPump_pbv, isValveKind_pbv, ltype_tcv, isPump_tcv, isValveKind_tcv, ltype_fcv, isPump_fcv, isValveKind_fcv, ltype_gpv, isPump_gpv, isValveKind_gpv, linkSets_pipe, linkSets_headPump, linkSets_powerPump, linkSets_prv, linkSets_psv, linkSets_pbv, linkSets_tcv, linkSets_fcv, linkSets_gpv, isLinkType_pipe, isLinkType_pump, isLinkType_valve, isLinkType_source, isLinkType_junction, isLinkType_reservoir, isLinkType_tank, nodePatUser_junction, nodePatUser_reservoir, nodePatUser_tank, nodeSet_junction, nodeSet_tank, nodeSet_reservoir, curveSet_head, curveSet_headloss, curveSet_volume, curveSet_efficiency, fam_junctions, fam_tanks, fam_reservoirs, fam_pipes, fam_pumps, fam_headPumps, fam_powerPumps, fam_prvs, fam_psvs, fam_pbvs, fam_tcvs, fam_fcvs, fam_gpvs, fam_valves, fam_pumpCurves, fam_effCurves, fam_headlossCurves, fam_volCurves,
+  List.mem_cons, List.mem_singleton, List.not_mem_nil] at *)
 
 end Wntr.Registry
